@@ -4,6 +4,7 @@ import (
 	"encoding/json"
 	"fmt"
 	"math"
+	"math/rand"
 	"reflect"
 	"strings"
 	"sync"
@@ -187,7 +188,7 @@ func init() {
 	core.Register(&core.Prop{
 		ID: "C09",
 		Rule: "bounded-exhaustive: every sequence of length<=L over the 10-letter alphabet {Store(k,fresh) , Load(k), Delete(k) : k in {a,b,c}} + {Len} on capacities 0..4, executed on a fresh real LRUCache in lock-step with a reference LRU, comparing return value, Len, callback log and Dump (full recency order) after EVERY operation plus a final probe of every key; " +
-			"random: long sequences on capacities {0,1,2,3,4,7,64,512} with key sets 1.2-3x capacity and keys of several dynamic types. distinct = distinct (capacity, op sequence) with at least one Store; non-trivial = sequence contains a Store",
+			"random: long sequences on capacities {0,1,2,3,4,7,64,512} with key sets 1.2-3x capacity and keys of several dynamic types; values of every dynamic kind (nil interface, typed nil, uncomparable) through Delete / eviction / overwrite; fault injection at the hook: a removal callback that panics on every k-th invocation (caller recovers) on capacities 1..4 — the cache must stay the model's bounded LRU map. distinct = distinct (capacity, op sequence) with at least one Store; non-trivial = sequence contains a Store",
 		Exhaustive: func(t core.Tier) bool { return true },
 		Shards:     func(t core.Tier) int { return 16 },
 		Run:        runC09,
@@ -259,6 +260,7 @@ func runC09(c *core.Ctx) {
 		c09ValueKinds(res)
 		c09LargeCapacity(res)
 	}
+	c09PanickingCallback(res, c.Rng("panicking-callback"), c.Pick(2000, 60000))
 	// ---- bounded exhaustive
 	L := c.Pick(6, 7)
 	alphabet := []lruOp{}
@@ -482,6 +484,91 @@ func c09LargeCapacity(res *core.Result) {
 		l.Store(capacity, capacity) // overflow: the least recently used key is 1 (0 was just loaded)
 		if n := l.Len(); n != capacity || len(removed) != 1 || removed[0] != 1 {
 			res.Violate("C09|large-capacity|overflow", fmt.Sprintf("NewLRU(%d): overflow left Len()=%d and removed %v (want key 1)", capacity, n, removed), capacity)
+		}
+	}
+}
+
+// c09PanickingCallback: a fault injected at the hook. The removal callback panics on every k-th
+// invocation and the caller recovers (as a caller wrapping the cache would); the operation in which
+// the callback ran has still removed its entry, and the cache stays the bounded LRU map it was:
+// Len, hits, values and later callbacks follow the model, which counts the panicking invocation as
+// the one callback of that entry.
+func c09PanickingCallback(res *core.Result, rng *rand.Rand, n int) {
+	type sentinel struct{}
+	for it := 0; it < n; it++ {
+		capacity := 1 + rng.Intn(4)
+		every := 1 + rng.Intn(3)
+		real := valid.NewLRU(capacity)
+		model := ref.NewLRU(capacity)
+		var cbs []cbEntry
+		real.SetDelCallBackFn(func(k, v interface{}) {
+			cbs = append(cbs, cbEntry{k, v})
+			if len(cbs)%every == 0 {
+				panic(sentinel{})
+			}
+		})
+		guarded := func(f func()) (other interface{}) {
+			defer func() {
+				if r := recover(); r != nil {
+					if _, ok := r.(sentinel); !ok {
+						other = r
+					}
+				}
+			}()
+			f()
+			return nil
+		}
+		var trace []string
+		bad := ""
+		for step := 0; step < 14 && bad == ""; step++ {
+			k := rng.Intn(capacity + 2)
+			var other interface{}
+			switch rng.Intn(4) {
+			case 0, 1:
+				v := 100*it + step
+				trace = append(trace, fmt.Sprintf("Store(%d,%d)", k, v))
+				other = guarded(func() { real.Store(k, v) })
+				model.Store(k, v)
+			case 2:
+				trace = append(trace, fmt.Sprintf("Delete(%d)", k))
+				other = guarded(func() { real.Delete(k) })
+				model.Delete(k)
+			default:
+				trace = append(trace, fmt.Sprintf("Load(%d)", k))
+				rv, rok := real.Load(k)
+				mv, mok := model.Load(k)
+				if rok != mok || (rok && rv != mv) {
+					bad = fmt.Sprintf("Load(%d) = %v,%v, model %v,%v", k, rv, rok, mv, mok)
+				}
+			}
+			if other != nil {
+				bad = fmt.Sprintf("the operation panicked with %v (not the callback's own panic)", other)
+			}
+			if l := real.Len(); bad == "" && l != model.Len() {
+				bad = fmt.Sprintf("Len()=%d, model %d", l, model.Len())
+			}
+			if bad == "" && len(cbs) != len(model.Log) {
+				bad = fmt.Sprintf("%d callbacks so far, model %d: %v vs %v", len(cbs), len(model.Log), cbs, model.Log)
+			}
+			for j := 0; bad == "" && j < len(cbs); j++ {
+				if cbs[j].k != model.Log[j].K || cbs[j].v != model.Log[j].V {
+					bad = fmt.Sprintf("callback #%d was (%v,%v), model (%v,%v)", j, cbs[j].k, cbs[j].v, model.Log[j].K, model.Log[j].V)
+				}
+			}
+		}
+		for k := 0; bad == "" && k < capacity+2; k++ {
+			rv, rok := real.Load(k)
+			mv, mok := model.Load(k)
+			if rok != mok || (rok && rv != mv) {
+				bad = fmt.Sprintf("final Load(%d) = %v,%v, model %v,%v", k, rv, rok, mv, mok)
+			}
+		}
+		res.Eval()
+		res.Count("panicking_callback_sequences")
+		res.Count("panicking_callback_invocations", int64(len(cbs)/every))
+		if bad != "" {
+			res.Violate("C09|panicking-callback|inconsistent", fmt.Sprintf("capacity %d, callback panics on every %d. invocation (recovered by the caller): after %v: %s", capacity, every, trace, bad),
+				map[string]interface{}{"cap": capacity, "panic_every": every, "ops": trace, "problem": bad})
 		}
 	}
 }
